@@ -22,13 +22,13 @@ from .model import TreeModel
 from .snapshot import ustr
 
 MUTATING = {"mk_group", "mk_object", "add_data", "add_comment", "add_file", "set_values", "rename", "set_flag",
-            "set_meta", "move", "copy", "rm_ws", "rm_parent", "pg_add", "pg_rm", "pg_del", "mk_dup", "pg_new", "move_data", "copy_extent"}
+            "set_meta", "move", "copy", "rm_ws", "rm_parent", "pg_add", "pg_rm", "pg_del", "mk_dup", "pg_new", "move_data", "copy_extent", "type_edit"}
 SCHEDULE = {"gc", "drop", "close_reopen", "reopen_same", "save_as", "list", "lookup", "observe", "tidy"}
 
 BASE_WEIGHTS = {
     "mk_group": 6, "mk_object": 10, "add_data": 12, "add_comment": 2, "add_file": 1, "set_values": 5,
     "rename": 4, "set_flag": 3, "set_meta": 3, "move": 5, "copy": 6, "rm_ws": 5, "rm_parent": 4,
-    "pg_add": 4, "pg_rm": 2, "pg_del": 1, "pg_new": 2, "mk_dup": 0, "move_data": 3, "copy_extent": 2,
+    "pg_add": 4, "pg_rm": 2, "pg_del": 1, "pg_new": 2, "mk_dup": 0, "move_data": 3, "copy_extent": 2, "type_edit": 2,
     "gc": 5, "drop": 3, "close_reopen": 4, "reopen_same": 2, "save_as": 1, "list": 3, "lookup": 3, "observe": 2,
 }
 PROFILES = {
@@ -36,7 +36,7 @@ PROFILES = {
     "C02": {"rm_parent": 6, "move": 7, "copy": 8, "close_reopen": 6, "move_data": 6, "copy_extent": 5, "pg_add": 6},
     "C05": {"rm_ws": 12, "rm_parent": 9, "pg_add": 8, "pg_rm": 4, "pg_new": 5, "lookup": 6, "copy": 4, "set_flag": 5},
     "C06": {"mk_dup": 8, "copy": 10, "rm_ws": 6, "rm_parent": 5, "lookup": 4},
-    "C09": {"observe": 4, "list": 4},
+    "C09": {"observe": 4, "list": 4, "type_edit": 6, "copy": 9},
     "C12": {"copy": 16, "set_values": 7, "rename": 6, "set_meta": 6, "pg_add": 6, "copy_extent": 6, "pg_new": 3},
 }
 
@@ -207,6 +207,7 @@ class World:
             orc.before(self, op)
         self.last_target = None
         self.last_pg_owner = None
+        self.last_type = None
         sim.begin_op(op["sub"])
         try:
             outcome = getattr(self, "do_" + kind)(op)
@@ -711,7 +712,14 @@ class World:
         return "ok"
 
     def gen_copy(self, rng, h):
-        t = self.target(rng, h, "entity", lambda r: r["cls"] != "CommentsData" or True)
+        t = None
+        if rng.random() < 0.35:
+            t = self.target(rng, h, "object", lambda r: bool(r.get("pgs")))
+        if t is None and rng.random() < 0.25 and self.copies:
+            srcs = {c["src"] for c in self.copies if c["h"] == h} | {c["dst"] for c in self.copies if c["dh"] == h}
+            t = self.target(rng, h, "entity", lambda r: r["uid"] in srcs)
+        if t is None:
+            t = self.target(rng, h, "entity")
         if t is None:
             return None
         dh = h
@@ -1115,6 +1123,47 @@ class World:
         self.keep_or_drop({**op}, dh, new)
         self.sim.probe("copy_extent_all")
         return "ok"
+
+    def gen_type_edit(self, rng, h):
+        t = self.target(rng, h, "data", lambda r: not r.get("concat") and r["cls"] not in ("CommentsData", "FilenameData"))
+        if t is None:
+            return None
+        return {"t": t, "what": rng.choice(["units", "description", "value_map", "hidden"]), "val": rng.choice(["m", "ppm", "Ωm", "desc é"]), "key": rng.randrange(1, 6)}
+
+    def do_type_edit(self, op):
+        """Edit the data type of a data set (shared by its copies): only that type node may change (C09)."""
+        h = op["h"]
+        model = self.h[h].model
+        uid = self.resolve(h, op["t"], lambda r: not r.get("concat") and r["cls"] not in ("CommentsData", "FilenameData"))
+        if uid is None:
+            return "skipped"
+        rec = model.recs[uid]
+        ent = self.ent(h, uid)
+        dtype = ent.entity_type
+        what = op["what"]
+        if what == "value_map" and rec.get("primitive") not in ("REFERENCED", "BOOLEAN"):
+            what = "units"
+        self.last_type = (h, f"T/Data types/{rec['type_uid']}")
+
+        def edit():
+            if what == "units":
+                dtype.units = op["val"]
+            elif what == "description":
+                dtype.description = op["val"]
+            elif what == "hidden":
+                dtype.hidden = not dtype.hidden
+            else:
+                if rec.get("primitive") == "BOOLEAN":
+                    dtype.value_map = {0: "Unknown", 1: op["val"]}
+                else:
+                    new_map = dict(dtype.value_map.map) if dtype.value_map is not None else {0: "Unknown"}
+                    new_map[op["key"]] = op["val"]
+                    dtype.value_map = new_map
+
+        _, outcome = self.call(edit, what="type_edit " + what)
+        del ent, dtype
+        self.sim.probe("type_edit_" + what)
+        return outcome
 
     # ---- identifier reuse (C06) --------------------------------------------------------------
     def gen_mk_dup(self, rng, h):
